@@ -35,7 +35,7 @@ STUBBED = C.STUBBED
 
 
 def budget(tier):
-    return dict(nights=110, wall_s=150) if tier == "quick" else dict(nights=5000, wall_s=1500)
+    return dict(nights=600, wall_s=240) if tier == "quick" else dict(nights=5000, wall_s=1500)
 
 
 FEED = dict(p_loss=0.05, p_dup=0.15, p_reorder=0.3, p_rescale=0.25, versions=(1, 9), max_polls=0, max_events=4000, p_never_final=0.1,
